@@ -13,6 +13,8 @@ import Jamm.Proofs.EncodeTreeLemmas
 import Jamm.Proofs.TreeDBLemmas
 import Jamm.Proofs.EncodeViewLemmas
 import Jamm.Proofs.FileDBLemmas
+import Jamm.Proofs.TreeDBHistory
+import Jamm.Proofs.CommitNeb
 import Jamm.Gen.Layout
 set_option linter.unusedSectionVars false
 open Std
@@ -85,9 +87,9 @@ the invariant under which the reads above are correct. -/
 touched header keys, every page size, every split threshold -/
 theorem commit_preserves_contents (p : Params) (pagesize hdr leafHdr branchHdr bmSize : Nat)
     (steps : List RbStep) (touched : List Bytes) (t : Tree Bytes Ent) (h : TreeInv t) :
-    (commitTree p pagesize hdr leafHdr branchHdr bmSize steps touched t).flatten = t.flatten := by
+    (commitTree p pagesize hdr leafHdr branchHdr (entSize bmSize) steps touched t).flatten = t.flatten := by
   obtain ⟨d, hu⟩ := h.uniform
-  exact commitTree_flatten p pagesize hdr leafHdr branchHdr bmSize steps touched t d hu
+  exact commitTree_flatten p pagesize hdr leafHdr branchHdr (entSize bmSize) steps touched t d hu
 
 /-- the tree invariant (separators bound their subtrees, no routing gap, uniform depth) holds after
 every edit of a transaction and after its commit, hence — by induction — at every point of every
@@ -99,11 +101,14 @@ theorem invariant_through_edits (t : Tree K α) (h : TreeInv t) (ops : List (TxO
 theorem invariant_through_commit (p : Params) (hp : p.Valid) (h2 : 2 ≤ p.minKeysPerNode)
     (pagesize hdr leafHdr branchHdr bmSize : Nat) (steps : List RbStep) (touched : List Bytes)
     (t : Tree Bytes Ent) (h : TreeInv t) :
-    TreeInv (commitTree p pagesize hdr leafHdr branchHdr bmSize steps touched t) :=
-  commitTree_inv p pagesize hdr leafHdr branchHdr bmSize hp h2 steps touched t h
+    TreeInv (commitTree p pagesize hdr leafHdr branchHdr (entSize bmSize) steps touched t) :=
+  commitTree_inv p pagesize hdr leafHdr branchHdr (entSize bmSize) hp h2 steps touched t h
 
-/-- … and a tree with the invariant and no childless branch is well-formed for routing, so `get_refines`,
-`scan_refines` and `edits_refine` apply to it -/
+/-- … and a tree with the invariant AND no childless branch (`nebT`) is well-formed for routing, so
+`get_refines`, `scan_refines` and `edits_refine` apply to it.  `nebT` is kept by every edit
+(`edits_keep_invariant_and_wellformedness`) and by `spill`; a replay of `rebalance` steps can break it only in
+the middle (a branch emptied by a merge that later steps remove), so for commit it is a hypothesis on the
+rebalanced tree (`commit_gives_wellformed_tree`), evaluated by the run on every real replay -/
 theorem invariant_gives_wf (t : Tree K α) (h : TreeInv t) (hne : nebT t = true) : WF none none t :=
   wfs_wf none none t h.sep hne
 
@@ -209,5 +214,40 @@ theorem checked_file_is_a_wellformed_database (mt : MetaRec) (pg : PageStore) (f
     TDB.AllWF (viewToTDB [] sum.root) ∧
     TDB.getBucket (viewToTDB [] sum.root) [] = some { nextInt := mt.nextInt, tree := sum.root.tree.mapE itemOf } :=
   ⟨checked_file_allwf mt pg fileSize pagesize sum h, checked_file_root mt pg fileSize pagesize sum h⟩
+
+/-! ## Whole histories, values included.  `commitTree` is polymorphic in the payload; applied to the API-layer
+database (trees carrying the real values and bucket markers) it gives `TDB.commitDB`.  One theorem for a whole
+history of transactions — operations at any nesting depth, each followed by the commit of every bucket: -/
+
+theorem edits_keep_invariant_and_wellformedness (t : Tree K α) (h : TreeInv t) (hn : nebT t = true)
+    (ops : List (TxOp K α)) :
+    TreeInv (ops.foldl Tree.applyOp t) ∧ nebT (ops.foldl Tree.applyOp t) = true ∧
+    WF none none (ops.foldl Tree.applyOp t) :=
+  applyOps_inv_neb t h hn ops
+
+theorem commit_gives_wellformed_tree {E : Type} (p : Params) (hp : p.Valid) (h2 : 2 ≤ p.minKeysPerNode)
+    (pagesize hdr leafHdr branchHdr : Nat) (esz : Bytes × E → Nat) (steps : List RbStep) (touched : List Bytes)
+    (t : Tree Bytes E) (hi : TreeInv t) (h : nebT ((t.rebalance steps).touchAll touched) = true) :
+    WF none none (commitTree p pagesize hdr leafHdr branchHdr esz steps touched t) :=
+  commitTree_wf p pagesize hdr leafHdr branchHdr esz hp h2 steps touched t hi h
+
+/-- for every history of transactions (each: any write operations, then the commit model on every bucket with
+its own rebalance steps and touched keys), provided each replay of rebalance steps leaves no childless branch:
+the committed database is exactly the reference's state after all the operations in order, and every tree is
+well-formed, so every read theorem applies to it -/
+theorem whole_history_refines (p : Params) (hp : p.Valid) (h2 : 2 ≤ p.minKeysPerNode)
+    (pagesize hdr leafHdr branchHdr bmSize : Nat) (db : TDB.DB Bytes Bytes)
+    (hi : TDB.AllInv db) (hn : TDB.AllNeb db) (txs : List TDB.TxRec)
+    (hc : TDB.HistoryComplete p pagesize hdr leafHdr branchHdr bmSize db txs) :
+    TDB.abs (txs.foldl (TDB.runTx p pagesize hdr leafHdr branchHdr bmSize) db) =
+      (txs.flatMap (·.ops)).foldl Spec.applyTOp (TDB.abs db) ∧
+    TDB.AllWF (txs.foldl (TDB.runTx p pagesize hdr leafHdr branchHdr bmSize) db) :=
+  TDB.history_refines p pagesize hdr leafHdr branchHdr bmSize hp h2 db hi hn txs hc
+
+/-- the database a new file starts as satisfies the hypotheses of `whole_history_refines` -/
+theorem new_database_is_good :
+    TDB.AllInv ([([], { nextInt := 0, tree := TDB.newTree })] : TDB.DB Bytes Bytes) ∧
+    TDB.AllNeb ([([], { nextInt := 0, tree := TDB.newTree })] : TDB.DB Bytes Bytes) :=
+  TDB.empty_good
 
 end Jamm.Props.C01
